@@ -45,6 +45,66 @@ type Report struct {
 	Infra     []string       // infrastructure problems (exit 2)
 	NoteEx    map[string]string
 	RepoStats *run.RepoTraceStats
+	confirmed map[string]confirmation // finding key -> outcome of its replay in a fresh process
+}
+
+type confirmation struct {
+	code int
+	path string
+	out  string
+}
+
+// confirm replays a finding in a fresh process (once) and says how that ended: exit code 1 means
+// the divergence showed again.
+func (rep *Report) confirm(f Finding) confirmation {
+	key := f.Kind + "|" + f.Detail
+	if c, ok := rep.confirmed[key]; ok {
+		return c
+	}
+	if rep.confirmed == nil {
+		rep.confirmed = map[string]confirmation{}
+	}
+	root := verifRoot()
+	os.MkdirAll(outDir(root, "replays"), 0o755)
+	self, _ := os.Executable()
+	b, _ := json.MarshalIndent(f, "", " ")
+	sum := sha1.Sum(b)
+	path := filepath.Join(outDir(root, "replays"), fmt.Sprintf("%s-%x.json", rep.Prop, sum[:6]))
+	os.WriteFile(path, b, 0o644)
+	out, err := exec.Command(self, "replay", path).CombinedOutput()
+	code := 0
+	if ee, ok := err.(*exec.ExitError); ok {
+		code = ee.ExitCode()
+	} else if err != nil {
+		code = 2
+	}
+	if code != 1 {
+		os.Remove(path)
+	}
+	c := confirmation{code, path, string(out)}
+	rep.confirmed[key] = c
+	return c
+}
+
+// anyConfirmed: some finding so far (known findings aside) reproduces in a fresh process.
+func (rep *Report) anyConfirmed() bool {
+	known := loadKnown()
+	tried := 0
+	for _, f := range rep.Findings {
+		if known.match(rep.Prop, f) != "" {
+			continue
+		}
+		if _, done := rep.confirmed[f.Kind+"|"+f.Detail]; !done {
+			if tried >= 8 {
+				continue
+			}
+			tried++
+		}
+		if rep.confirm(f).code == 1 {
+			return true
+		}
+	}
+	return false
 }
 
 // SpecialStats is what a property-specific stage measured.
@@ -319,7 +379,6 @@ func (rep *Report) finish(def *propDef) int {
 	known := loadKnown()
 	violations := 0
 	printed := map[string]bool{}
-	self, _ := os.Executable()
 	for _, f := range rep.Findings {
 		key := f.Kind + "|" + f.Detail
 		if printed[key] || violations >= 5 {
@@ -330,26 +389,13 @@ func (rep *Report) finish(def *propDef) int {
 			fmt.Printf("KNOWN-FINDING: property=%s %s\n", rep.Prop, k)
 			continue
 		}
-		b, _ := json.MarshalIndent(f, "", " ")
-		sum := sha1.Sum(b)
-		path := filepath.Join(outDir(root, "replays"), fmt.Sprintf("%s-%x.json", rep.Prop, sum[:6]))
-		os.WriteFile(path, b, 0o644)
-		// confirm in a fresh process before reporting
-		cmd := exec.Command(self, "replay", path)
-		out, err := cmd.CombinedOutput()
-		code := 0
-		if ee, ok := err.(*exec.ExitError); ok {
-			code = ee.ExitCode()
-		} else if err != nil {
-			code = 2
-		}
-		if code == 1 {
-			fmt.Printf("VIOLATION property=%s replay=%s\n", rep.Prop, path)
+		c := rep.confirm(f)
+		if c.code == 1 {
+			fmt.Printf("VIOLATION property=%s replay=%s\n", rep.Prop, c.path)
 			fmt.Printf("  %s: %s\n", f.Kind, f.Detail)
 			violations++
 		} else {
-			rep.Infra = append(rep.Infra, fmt.Sprintf("finding did not reproduce in a fresh process (exit %d): %s: %s\n%s", code, f.Kind, f.Detail, firstLines(string(out), 8)))
-			os.Remove(path)
+			rep.Infra = append(rep.Infra, fmt.Sprintf("finding did not reproduce in a fresh process (exit %d): %s: %s\n%s", c.code, f.Kind, f.Detail, firstLines(c.out, 8)))
 		}
 	}
 	var nk []string
